@@ -52,7 +52,7 @@ func zeroLit(t types.Type) string {
 func mutgenCmd(args []string) int {
 	fs := flag.NewFlagSet("mutgen", flag.ExitOnError)
 	repo := fs.String("repo", "/repo", "")
-	gen := fs.Int("gen", 1, "operator generation: 1 = statement/condition/literal operators, 2 = confusions (sibling field, same-typed variable, status code, defer-to-call, if removal)")
+	gen := fs.Int("gen", 1, "operator generation: 1 = statement/condition/literal operators, 2 = confusions (sibling field, same-typed variable, status code, defer-to-call, if removal), 3 = order and logic (adjacent statements swapped, && <-> ||, dropped !, deleted select case, Lock <-> RLock, deleted bare return)")
 	fs.Parse(args)
 	w, err := loadWorld(*repo, "", "")
 	if err != nil {
@@ -78,11 +78,21 @@ func mutgenCmd(args []string) int {
 		text := func(nd ast.Node) string { return string(src[off(nd.Pos()):off(nd.End())]) }
 		curFunc := ""
 		gen2ops := map[string]bool{"sibling-field": true, "same-type-var": true, "status-code": true, "defer-to-call": true, "del-if": true, "del-else": true, "cas-swap": true}
+		gen3ops := map[string]bool{"swap-stmts": true, "and-or": true, "drop-not": true, "del-select-case": true, "lock-kind": true, "del-return": true}
+		opGen := func(op string) int {
+			switch {
+			case gen3ops[op]:
+				return 3
+			case gen2ops[op]:
+				return 2
+			}
+			return 1
+		}
 		emit := func(nd ast.Node, op, repl string) {
 			if repl == text(nd) {
 				return
 			}
-			if (*gen == 2) != gen2ops[op] {
+			if opGen(op) != *gen {
 				return
 			}
 			n++
@@ -90,7 +100,7 @@ func mutgenCmd(args []string) int {
 			if len(o) > 160 {
 				o = o[:160] + "…"
 			}
-			enc.Encode(genMutant{ID: fmt.Sprintf("%s%04d", map[int]string{1: "m", 2: "g"}[*gen], n), File: base, Start: off(nd.Pos()), End: off(nd.End()), New: repl, Op: op,
+			enc.Encode(genMutant{ID: fmt.Sprintf("%s%04d", map[int]string{1: "m", 2: "g", 3: "h"}[*gen], n), File: base, Start: off(nd.Pos()), End: off(nd.End()), New: repl, Op: op,
 				Line: fset.Position(nd.Pos()).Line, Func: curFunc, Orig: o})
 		}
 		inRoot := func(call *ast.CallExpr) *types.Func {
@@ -133,6 +143,39 @@ func mutgenCmd(args []string) int {
 				if x.Recv != nil && len(x.Recv.List) > 0 {
 					curFunc = strings.TrimPrefix(types.ExprString(x.Recv.List[0].Type), "*") + "." + curFunc
 				}
+			case *ast.BlockStmt:
+				for i := 0; i+1 < len(x.List); i++ {
+					a, b := x.List[i], x.List[i+1]
+					if _, isDecl := a.(*ast.DeclStmt); isDecl {
+						continue
+					}
+					if as, isAs := a.(*ast.AssignStmt); isAs && as.Tok == token.DEFINE {
+						continue
+					}
+					if _, isRet := b.(*ast.ReturnStmt); isRet {
+						continue
+					}
+					if _, isBr := b.(*ast.BranchStmt); isBr {
+						continue
+					}
+					n++
+					if *gen == 3 {
+						o := text(a) + " ; " + text(b)
+						if len(o) > 160 {
+							o = o[:160] + "…"
+						}
+						enc.Encode(genMutant{ID: fmt.Sprintf("h%04d", n), File: base, Start: off(a.Pos()), End: off(b.End()),
+							New: text(b) + "\n" + text(a), Op: "swap-stmts", Line: fset.Position(a.Pos()).Line, Func: curFunc, Orig: o})
+					}
+				}
+			case *ast.UnaryExpr:
+				if x.Op == token.NOT {
+					emit(x, "drop-not", text(x.X))
+				}
+			case *ast.CommClause:
+				if x.Comm != nil {
+					emit(x, "del-select-case", "")
+				}
 			case *ast.IfStmt:
 				ifConds[x.Cond] = true
 				emit(x.Cond, "negate-if", "!("+text(x.Cond)+")")
@@ -153,6 +196,11 @@ func mutgenCmd(args []string) int {
 						}
 						emit(x, "status-code", id.Name+"."+alt)
 						return true
+					}
+				}
+				if sel, ok := info.Selections[x]; ok && sel.Kind() == types.MethodVal && strings.HasSuffix(types.TypeString(sel.Recv(), nil), "sync.RWMutex") {
+					if alt, has := map[string]string{"Lock": "RLock", "Unlock": "RUnlock", "RLock": "Lock", "RUnlock": "Unlock"}[x.Sel.Name]; has {
+						emit(x.Sel, "lock-kind", alt)
 					}
 				}
 				// sibling field of the same type
@@ -189,6 +237,7 @@ func mutgenCmd(args []string) int {
 				case token.LAND, token.LOR:
 					emit(x, "drop-right", text(x.X))
 					emit(x, "drop-left", text(x.Y))
+					emit(x, "and-or", text(x.X)+map[token.Token]string{token.LAND: " || ", token.LOR: " && "}[x.Op]+text(x.Y))
 				case token.LSS:
 					emit(x, "cmp-boundary", text(x.X)+" <= "+text(x.Y))
 				case token.LEQ:
@@ -333,6 +382,7 @@ func mutgenCmd(args []string) int {
 				}
 			case *ast.ReturnStmt:
 				if len(x.Results) == 0 {
+					emit(x, "del-return", "")
 					return true
 				}
 				last := x.Results[len(x.Results)-1]
